@@ -39,8 +39,33 @@ func (c *Ctx) newRef(hint string) string {
 			}
 		}
 	}
+	// distinct from every reference a call has returned so far: memory allocated now cannot
+	// be memory that somebody already held
+	// (encoded with an allocation clock: one fact per reference instead of one per pair)
+	if c.freshAllocOpt() {
+		c.declareFun("atime", []string{"Int"}, "Int")
+		c.allocClock++
+		c.asserts = append(c.asserts, fmt.Sprintf("(= (atime %s) %d)", r, c.allocClock))
+	}
 	c.allocRefs = append(c.allocRefs, r)
 	return r
+}
+
+// notePriorRefs records the reference-like components (pointers, slice arrays, interfaces) of
+// a value obtained from a call
+func (c *Ctx) notePriorRefs(v *Val) {
+	if v == nil || len(c.priorRefs) > 400 || !c.freshAllocOpt() {
+		return
+	}
+	var ts, ss []string
+	c.flatten(v, &ts, &ss)
+	c.declareFun("atime", []string{"Int"}, "Int")
+	for i := range ts {
+		if ss[i] == "Int" && len(ts[i]) < 80 {
+			c.priorRefs = append(c.priorRefs, ts[i])
+			c.asserts = append(c.asserts, fmt.Sprintf("(<= (atime %s) %d)", ts[i], c.allocClock))
+		}
+	}
 }
 
 func (c *Ctx) execInstr(in ssa.Instruction, st *State) {
@@ -1205,3 +1230,8 @@ func allocWrittenOnce(a *ssa.Alloc) bool {
 	// sliced is usually sliced in order to be filled through the slice
 	return n == 1 && fromParam && !hasFieldStores(a)
 }
+
+// freshAllocOpt: contract option freshalloc=true - memory allocated by the function is distinct
+// from every reference a call returned earlier (off by default: it adds integer facts to
+// every query of the function)
+func (c *Ctx) freshAllocOpt() bool { return c.con != nil && c.con.Opts["freshalloc"] == "true" }
